@@ -23,6 +23,8 @@ dictionaries are not mutated. K6: bzr/tag.py serialises tag names with .encode("
 .decode("utf-8"), values pass through bencode/bdecode unchanged. K5: every caller of _reconcile_tags writes the
 destination (_set_tag_dict) with exactly the reconciled `result` and returns the reported updates/conflicts; InterTags.merge
 also reconciles the master's tags unless ignore_master.
+tag-selector-passed-through: every function of branch.py / git/branch.py that takes a tag_selector hands it to the
+tags.merge_to() it calls.
 remote-tags-cache-follows-write: RemoteBranch._set_tags_bytes refreshes the cached tags on every normal exit while locked.
 git-tag-target-holds-object: InterTagsFromGitToLocalGit.merge writes a ref into the target's refs only after resolving the
 tagged object in the target repository (third-round seeds).
@@ -135,6 +137,18 @@ def run(ctx):
     r_ = gst.reach([gst.entry], avoid=set(cache), include_src=True)
     w_ = gst.path([gst.entry], [gst.exit], avoid=set(cache)) if gst.exit in r_ else None
     ctx.check("remote-tags-cache-follows-write", wst, bool(cache) and gst.exit not in r_, "while locked, every normal exit of _set_tags_bytes has refreshed the cached tags", message="RemoteBranch._set_tags_bytes can return (e.g. through the VFS fallback for a server without Branch.set_tags_bytes) without refreshing its cached tags: the next tag merge under the same lock starts from the stale dictionary and overwrites the file — tags stored by the previous transfer vanish without error or conflict", witness=gst.show_path(w_) if w_ else None)
+    # ---- every pull/push implementation hands its tag selector on to the tag merge (K7) ----------------------------------
+    n_sel = 0
+    for rel_ in ("breezy/branch.py", "breezy/git/branch.py"):
+        for q_, f_ in repo.module(rel_).functions().items():
+            if "tag_selector" not in [a.arg for a in f_.args.args + f_.args.kwonlyargs]:
+                continue
+            for c in calls_in(f_):
+                if call_attr(c) == "merge_to" and (call_recv(c) or "").endswith(".tags"):
+                    n_sel += 1
+                    passed = any(k.arg == "selector" and norm(k.value) == "tag_selector" for k in c.keywords)
+                    ctx.check("tag-selector-passed-through", f"{rel_}:{q_}", passed, f"{q_} hands tag_selector to tags.merge_to", construct=f"L{c.lineno}:{norm(c)[:80]}", message=f"{q_} receives a tag selector but calls `{norm(c)[:70]}` without it: tags the caller deselected are copied all the same (for a git source: pointing at revisions that were never fetched)")
+    ctx.require(n_sel >= 5, f"only {n_sel} tag merges in functions with a tag_selector parameter found (hand-confirmed: 7)")
     # ---- git sibling: a tag ref is written into the target only when the target holds the tagged object -----------------
     GB = "breezy/git/branch.py"
     fgm = repo.func(GB, "InterTagsFromGitToLocalGit.merge")
@@ -150,6 +164,7 @@ def run(ctx):
 
 
 MUTANTS = [
+    Mutant("git pull forgets the tag selector", "breezy/git/branch.py", "                (\"tags\" in overwrite),\n                ignore_master=True,\n                selector=tag_selector,\n", "                (\"tags\" in overwrite),\n                ignore_master=True,\n", expect="tag-selector-passed-through"),
     Mutant("VFS fallback of _set_tags_bytes leaves the cache stale", "breezy/bzr/remote.py", "        if self.is_locked():\n            self._tags_bytes = bytes\n        medium = self._client._medium\n        if medium._is_remote_before((1, 18)):\n            self._vfs_set_tags_bytes(bytes)\n            return\n", "        medium = self._client._medium\n        if medium._is_remote_before((1, 18)):\n            self._vfs_set_tags_bytes(bytes)\n            return\n        if self.is_locked():\n            self._tags_bytes = bytes\n", expect="remote-tags-cache-follows-write"),
     Mutant("git tag merge resolves the tag in the source repository", "breezy/git/branch.py", "                    updates[tag_name] = target_repo.lookup_foreign_revision_id(peeled)\n", "                    updates[tag_name] = self.source.branch.repository.lookup_foreign_revision_id(peeled)\n", expect="git-tag-target-holds-object"),
     Mutant("destination value overwritten unconditionally", TG, "        elif name not in result or overwrite:\n            updates[name] = target\n            result[name] = target\n        else:\n            conflicts.append((name, target, result[name]))", "        else:\n            updates[name] = target\n            result[name] = target", expect="reconcile-table"),
